@@ -29,7 +29,9 @@ def _case(draw):
         if draw(st.integers(0, 4)) == 0:
             c['chain'] = draw(st.integers(1, 2))    # ask again for the same key the moment the answer arrives
     keys = sorted({c['key'] if c['key'] is not None else c['name'] for c in calls})
-    behave = {k: 'exc' for k in keys if draw(st.integers(0, 3)) == 0}
+    # a key's request may end with a yielded Exception, or with the batch function itself raising when it reaches the key
+    # (before / after yielding it): the outcome of the request is then that exception, for every sharer
+    behave = {k: draw(st.sampled_from(['exc', 'exc', 'raise_before', 'raise_after'])) for k in keys if draw(st.integers(0, 3)) == 0}
     return {'cfg': cfg, 'calls': calls, 'behave': behave, 'order': draw(st.sampled_from(['fwd', 'rev'])),
             'bdur': bdur, 'idur': draw(st.sampled_from([0, 0, 4 * H.U, 0.25])), 'mutate': None, 'fresh': 0}
 
